@@ -35,12 +35,18 @@ type World struct {
 	funcIDs        map[*ssa.Function]uint64
 	overlay        map[string][]byte
 	pkgDir         map[string]string
+	readsCache     map[*ssa.Function]map[string]bool
 	genSrc         map[string]string // package path -> generated contract source
 	loadSeconds    float64
 }
 
 type targetPkg struct {
 	pattern string // relative dir, e.g. "." or "./lazyproto"
+}
+
+// isContractFile: contracts*_verif.go (comment-only, build tag verif).
+func isContractFile(name string) bool {
+	return strings.HasPrefix(name, "contracts") && strings.HasSuffix(name, "_verif.go")
 }
 
 var pkgClauseRe = regexp.MustCompile(`(?m)^package\s+\w+`)
@@ -51,8 +57,9 @@ func LoadWorld(repo, specDir string, dirs []string, extraEnv []string) (*World, 
 	w := &World{repo: repo, specDir: specDir, pkgs: map[string]*ssa.Package{}, targets: map[string]bool{},
 		contracts: map[string]*Contract{}, ifaceContracts: map[string]*Contract{}, namedIDs: map[string]uint64{},
 		funcIDs: map[*ssa.Function]uint64{}, overlay: map[string][]byte{}, genSrc: map[string]string{}, pkgDir: map[string]string{}}
-	common := readFileOr(filepath.Join(specDir, "common.go"))
-	if common == nil {
+	commons, _ := filepath.Glob(filepath.Join(specDir, "*.go"))
+	sort.Strings(commons)
+	if len(commons) == 0 {
 		return nil, fmt.Errorf("spec library not found in %s", specDir)
 	}
 	type pend struct {
@@ -69,7 +76,7 @@ func LoadWorld(repo, specDir string, dirs []string, extraEnv []string) (*World, 
 			return nil, err
 		}
 		for _, e := range ents {
-			if strings.HasSuffix(e.Name(), ".go") && !strings.HasSuffix(e.Name(), "_test.go") && e.Name() != "contracts_verif.go" {
+			if strings.HasSuffix(e.Name(), ".go") && !strings.HasSuffix(e.Name(), "_test.go") && !isContractFile(e.Name()) {
 				src := readFileOr(filepath.Join(abs, e.Name()))
 				if strings.Contains(string(src), "//go:build ignore") || strings.Contains(string(src), "// +build tools") || strings.Contains(string(src), "//go:build tools") {
 					continue
@@ -84,7 +91,9 @@ func LoadWorld(repo, specDir string, dirs []string, extraEnv []string) (*World, 
 			return nil, fmt.Errorf("no package in %s", abs)
 		}
 		// spec library copy
-		w.overlay[filepath.Join(abs, "zz_gocv_spec.go")] = pkgClauseRe.ReplaceAll(common, []byte("package "+pkgName))
+		for _, cf := range commons {
+			w.overlay[filepath.Join(abs, "zz_gocv_spec_"+filepath.Base(cf))] = pkgClauseRe.ReplaceAll(readFileOr(cf), []byte("package "+pkgName))
+		}
 		// per-package harness files: specDir/<pkgName>/*.go
 		hs, _ := filepath.Glob(filepath.Join(specDir, pkgName, "*.go"))
 		sort.Strings(hs)
@@ -93,10 +102,17 @@ func LoadWorld(repo, specDir string, dirs []string, extraEnv []string) (*World, 
 		}
 		// contracts
 		var cons []*Contract
-		cfiles := []string{filepath.Join(abs, "contracts_verif.go")}
+		var cfiles []string
+		for _, e := range ents {
+			if isContractFile(e.Name()) {
+				cfiles = append(cfiles, filepath.Join(abs, e.Name()))
+			}
+		}
 		extra, _ := filepath.Glob(filepath.Join(specDir, pkgName, "*.contracts"))
 		cfiles = append(cfiles, extra...)
-		cfiles = append(cfiles, filepath.Join(specDir, "common.contracts"))
+		cc, _ := filepath.Glob(filepath.Join(specDir, "*.contracts"))
+		sort.Strings(cc)
+		cfiles = append(cfiles, cc...)
 		var gen strings.Builder
 		fmt.Fprintf(&gen, "package %s\n\n", pkgName)
 		for _, cf := range cfiles {
@@ -361,4 +377,51 @@ func (w *World) intrinsic(fn *ssa.Function) (handler, bool) {
 		return nil, false
 	}
 	return h, true
+}
+
+// readPrefixes: heap component prefixes a (spec) function may read, transitively.
+func (w *World) readPrefixes(fn *ssa.Function) map[string]bool {
+	if w.readsCache == nil {
+		w.readsCache = map[*ssa.Function]map[string]bool{}
+	}
+	if r, ok := w.readsCache[fn]; ok {
+		return r
+	}
+	r := map[string]bool{}
+	w.readsCache[fn] = r
+	seen := map[*ssa.Function]bool{}
+	var visit func(f *ssa.Function)
+	visit = func(f *ssa.Function) {
+		if seen[f] || f.Blocks == nil {
+			return
+		}
+		seen[f] = true
+		for _, b := range f.Blocks {
+			for _, instr := range b.Instrs {
+				switch in := instr.(type) {
+				case *ssa.UnOp:
+					if in.Op == token.MUL {
+						for _, p := range storePrefixes(in.X) {
+							r[p] = true
+						}
+					}
+				case *ssa.Index:
+					if isString(in.X.Type()) {
+						r[elemPrefix(types.Typ[types.Uint8])] = true
+					}
+				case *ssa.Lookup:
+					r["M:"+typeKey(in.X.Type().Underlying())] = true
+				case ssa.CallInstruction:
+					if c := in.Common().StaticCallee(); c != nil {
+						if c.Name() == "byteAt" {
+							r[elemPrefix(types.Typ[types.Uint8])] = true
+						}
+						visit(c)
+					}
+				}
+			}
+		}
+	}
+	visit(fn)
+	return r
 }
